@@ -37,6 +37,17 @@ Record lists_frame (v v' : vam) : Prop := mkListsFrame {
   lf_next : v_next_uid v' = v_next_uid v /\ v_next_pool_id v' = v_next_pool_id v
 }.
 
+(* the requested alignment is at least the minimum alignment of block list lr *)
+Definition min_ok (v : vam) (lr : lref) (align : Z) : Prop := forall l, get_blist v lr = Some l -> bl_minalign l <= align.
+
+Lemma min_ok_frame v v' lr align : lists_frame v v' -> min_ok v lr align -> min_ok v' lr align.
+Proof.
+  intros L H l' G'. destruct (get_blist v lr) as [l|] eqn:G.
+  - destruct (lf_some _ _ L _ _ G) as (l2 & G2 & C). rewrite G' in G2. injection G2 as <-.
+    destruct C as (_&_&_&_&_&_&_&E&_). rewrite E. auto.
+  - rewrite (lf_none _ _ L _ G) in G'. discriminate.
+Qed.
+
 Lemma tab_frame_refl v S : tab_frame v v S.
 Proof. split; auto. Qed.
 
@@ -239,10 +250,10 @@ Lemma get_alloc_frame v v' S s : tab_frame v v' S -> ~ In s S -> get_alloc v' s 
 Proof. intros (_ & F) H. unfold get_alloc. rewrite F; auto. Qed.
 
 Lemma alloc_from_block_inv v U X lr bid size align flags sub s :
-  VamInvU c v U X -> Bits.pow2 align -> 0 <= s < zlen (v_tab v) -> a_allocated (get_alloc v s) = false ->
+  VamInvU c v U X -> Bits.pow2 align -> min_ok v lr align -> 0 <= s < zlen (v_tab v) -> a_allocated (get_alloc v s) = false ->
   let '(v', r) := alloc_from_block c v lr bid size align flags sub s in af_post v v' U X lr s r.
 Proof.
-  intros HI Hal Hs Hdead. unfold alloc_from_block.
+  intros HI Hal Hmin Hs Hdead. unfold alloc_from_block.
   assert (Hnoop : forall r, match r with AFOk => False | _ => True end -> af_post v v U X lr s r).
   { intros r Hr. destruct r; cbn; auto; try contradiction; (split; [auto|]; split; [apply tab_frame_refl|]; split; [apply lists_frame_refl|auto]). }
   destruct (get_block v lr bid) as [b|] eqn:Hgb; [|apply Hnoop; exact I].
@@ -314,6 +325,7 @@ Proof.
     eapply VamInvU_alloc_region with (l := l2) (b := b2) (h := h) (off := off) (l1 := la) (l2 := lb); eauto.
     all: try (cbn; congruence).
     unfold v3. cbn. unfold zlen. rewrite set_nth_z_length. fold (zlen (v_tab v2)). lia.
+    cbn. apply Hmin. exact Hg.
   }
   unfold af_post. change (bl_type l) with (bl_type l2). fold a.
   split; [apply VamInvU_mach_same; [exact HI5|apply add_allocation_same]|].
@@ -395,12 +407,12 @@ Lemma slot_is_frame v v' S s a : tab_frame v v' S -> ~ In s S -> (slot_is v' s a
 Proof. intros (_ & F) H. unfold slot_is. rewrite F; auto. tauto. Qed.
 
 Lemma try_blocks_inv ids : forall v U X lr size align flags sub s,
-  VamInvU c v U X -> Bits.pow2 align -> 0 <= s < zlen (v_tab v) -> a_allocated (get_alloc v s) = false ->
+  VamInvU c v U X -> Bits.pow2 align -> min_ok v lr align -> 0 <= s < zlen (v_tab v) -> a_allocated (get_alloc v s) = false ->
   let '(v', r) := try_blocks c v lr ids size align flags sub s in af_post v v' U X lr s r.
 Proof.
-  induction ids as [|bid tl IH]; intros v U X lr size align flags sub s HI Hal Hs Hdead; cbn [try_blocks].
+  induction ids as [|bid tl IH]; intros v U X lr size align flags sub s HI Hal Hmin Hs Hdead; cbn [try_blocks].
   - cbn. split; [auto|]. split; [apply tab_frame_refl|]. split; [apply lists_frame_refl|auto].
-  - pose proof (alloc_from_block_inv v U X lr bid size align flags sub s HI Hal Hs Hdead) as A.
+  - pose proof (alloc_from_block_inv v U X lr bid size align flags sub s HI Hal Hmin Hs Hdead) as A.
     destruct (alloc_from_block c v lr bid size align flags sub s) as (v1 & r). destruct r; cbn in A |- *; auto.
     + destruct A as (HI1 & T1 & L1 & (a & Sa & Ka & La)).
       destruct (sort_list_inv v1 U X lr HI1) as (HI2 & T2 & L2).
@@ -409,7 +421,7 @@ Proof.
       apply (slot_is_frame _ _ _ _ _ T2); auto.
     + destruct A as (HI1 & T1 & L1 & D1).
       assert (Hs1 : 0 <= s < zlen (v_tab v1)) by (destruct T1 as (E & _); lia).
-      specialize (IH v1 U X lr size align flags sub s HI1 Hal Hs1 D1).
+      specialize (IH v1 U X lr size align flags sub s HI1 Hal (min_ok_frame _ _ _ _ L1 Hmin) Hs1 D1).
       destruct (try_blocks c v1 lr tl size align flags sub s) as (v2 & r2).
       destruct r2; cbn in IH |- *; auto;
         destruct IH as (HI2 & T2 & L2 & R2); (split; [auto|]; split; [eapply tab_frame_trans_same; eauto|]; split; [eapply lists_frame_trans; eauto|auto]).
@@ -469,10 +481,10 @@ Lemma af_keeps v v' U X lr s r :
 Proof. destruct r; cbn; auto. Qed.
 
 Lemma alloc_page_inv v U X lr size align flags sub s :
-  VamInvU c v U X -> Bits.pow2 align -> 0 <= s < zlen (v_tab v) -> a_allocated (get_alloc v s) = false ->
+  VamInvU c v U X -> Bits.pow2 align -> min_ok v lr align -> 0 <= s < zlen (v_tab v) -> a_allocated (get_alloc v s) = false ->
   let '(v', r) := alloc_page c v lr size align flags sub s in ap_post v v' U X lr s r.
 Proof.
-  intros HI Hal Hs Hdead. unfold alloc_page. destruct (get_blist v lr) as [l|] eqn:Hg; [|exact I].
+  intros HI Hal Hmin Hs Hdead. unfold alloc_page. destruct (get_blist v lr) as [l|] eqn:Hg; [|exact I].
   pose proof (heap_budget_same c (v_m v) (type_heap c (bl_type l))) as Hb.
   destruct (heap_budget c (v_m v) (type_heap c (bl_type l))) as ((m1 & usage) & budget). cbn [fst] in Hb.
   assert (K1 : keeps v (set_m v m1) U X s).
@@ -480,7 +492,7 @@ Proof.
   destruct (_ && _); [apply ap_post_fail; auto|]. destruct (bl_pref l <? size); [apply ap_post_fail; auto|].
   pose proof K1 as (I1 & T1 & L1 & D1).
   assert (Hs1 : 0 <= s < zlen (v_tab (set_m v m1))) by (cbn; auto).
-  pose proof (try_blocks_inv (search_order c l flags) (set_m v m1) U X lr size align flags sub s I1 Hal Hs1 D1) as TB.
+  pose proof (try_blocks_inv (search_order c l flags) (set_m v m1) U X lr size align flags sub s I1 Hal (min_ok_frame _ _ _ _ L1 Hmin) Hs1 D1) as TB.
   destruct (try_blocks c (set_m v m1) lr (search_order c l flags) size align flags sub s) as (v2 & r).
   pose proof (af_keeps _ _ _ _ _ _ _ TB) as TK.
   destruct r; cbn [ap_post]; auto.
@@ -504,7 +516,7 @@ Proof.
     destruct (get_block v4 lr bid) as [nb|] eqn:Hgb; [|exact I]. destruct (meta_size (bk_meta nb) <? size); [exact I|].
     pose proof K4 as (I4 & T4 & L4 & D4).
     assert (Hs4 : 0 <= s < zlen (v_tab v4)) by (destruct T4 as (E & _); lia).
-    pose proof (alloc_from_block_inv v4 U X lr bid size align flags sub s I4 Hal Hs4 D4) as AF.
+    pose proof (alloc_from_block_inv v4 U X lr bid size align flags sub s I4 Hal (min_ok_frame _ _ _ _ L4 Hmin) Hs4 D4) as AF.
     destruct (alloc_from_block c v4 lr bid size align flags sub s) as (v5 & r2).
     pose proof (af_keeps _ _ _ _ _ _ _ AF) as AK.
     assert (Hgive : forall code2, keeps v4 v5 U X s ->
@@ -878,7 +890,7 @@ Proof.
 Qed.
 
 Lemma allocate_loop_inv slots : forall v U X lr done size align flags sub,
-  VamInvU c v U X -> Bits.pow2 align -> NoDup (slots ++ done) ->
+  VamInvU c v U X -> Bits.pow2 align -> min_ok v lr align -> NoDup (slots ++ done) ->
   dead_slots v slots -> block_slots v lr X done ->
   let '(v', r, done') := allocate_loop c v lr slots done size align flags sub in
   match r with
@@ -892,10 +904,10 @@ Lemma allocate_loop_inv slots : forall v U X lr done size align flags sub,
     end
   end.
 Proof.
-  induction slots as [|s tl IH]; intros v U X lr done size align flags sub HI Hal Hnd Hdead Hdone; cbn [allocate_loop].
+  induction slots as [|s tl IH]; intros v U X lr done size align flags sub HI Hal Hmin Hnd Hdead Hdone; cbn [allocate_loop].
   - split; [split; [auto|split; [apply tab_frame_refl|apply lists_frame_refl]]|]. split; [auto|]. split; [auto|]. split; [auto|]. intros ? [].
   - destruct (Hdead s (or_introl eq_refl)) as (Hr & Hd).
-    pose proof (alloc_page_inv v U X lr size align flags sub s HI Hal Hr Hd) as AP.
+    pose proof (alloc_page_inv v U X lr size align flags sub s HI Hal Hmin Hr Hd) as AP.
     destruct (alloc_page c v lr size align flags sub s) as (v1 & r).
     cbn [app] in Hnd. inversion Hnd as [|? ? Hns Hnd']; subst.
     assert (Hdone1 : tab_frame v v1 [s] -> block_slots v1 lr X done).
@@ -913,7 +925,7 @@ Proof.
       { destruct (Hdone1 T1) as (Hndd & Hd1). split; [constructor; [intros H; apply Hns; apply in_app_iff; auto|auto]|].
         intros s1 [<-|H1]; [|apply Hd1; auto]. split; [|eauto].
         intros HX. destruct (vi_dang _ _ _ _ HI _ HX) as (a2 & S2 & _). rewrite (get_alloc_slot _ _ _ S2) in Hd. destruct S2. congruence. }
-      specialize (IH v1 U X lr (s :: done) size align flags sub I1 Hal Hnd1 (Hdead1 T1) Hbs1).
+      specialize (IH v1 U X lr (s :: done) size align flags sub I1 Hal (min_ok_frame _ _ _ _ L1 Hmin) Hnd1 (Hdead1 T1) Hbs1).
       destruct (allocate_loop c v1 lr tl (s :: done) size align flags sub) as ((v2 & r2) & done2).
       destruct r2 as [[]|code| |]; auto; destruct IH as (K2 & B2 & S2 & Q2 & O2);
         (split; [eapply keptS_trans; [exact (Kw I1 T1 L1)|eapply keptS_weaken; [exact K2|intros; right; auto]]|]);
@@ -946,7 +958,9 @@ Proof.
     destruct Hal as [->|H']; [apply Z.ltb_ge in E; lia|auto]. }
   assert (Hnd0 : NoDup (slots ++ [])) by (rewrite app_nil_r; auto).
   assert (Hbs0 : block_slots v lr X []) by (split; [constructor|intros ? []]).
-  pose proof (allocate_loop_inv slots v U X lr [] size _ flags sub HI Hal' Hnd0 Hdead Hbs0) as AL.
+  assert (Hmin0 : min_ok v lr (if align0 <? bl_minalign l then bl_minalign l else align0)).
+  { intros l' G'. rewrite Hg in G'. injection G' as <-. destruct (align0 <? bl_minalign l) eqn:E; [lia|apply Z.ltb_ge in E; lia]. }
+  pose proof (allocate_loop_inv slots v U X lr [] size _ flags sub HI Hal' Hmin0 Hnd0 Hdead Hbs0) as AL.
   destruct (allocate_loop c v lr slots [] size _ flags sub) as ((v1 & r) & done).
   destruct r as [[]|code| |]; auto.
   - destruct AL as (K1 & B1 & _ & _ & O1). split; [auto|]. destruct B1 as (Hndd & Hb1). split; [auto|].
